@@ -216,8 +216,31 @@ def drivers(chk, P):
         chk.judge(ok, "STATUS", tag + ":zero-leading-coefficient-throws-first", f.loc, "")
         if kind == "quadratic":
             continue
-        solver = [(b_, i, e) for b_, i, e in f.calls() if str(e.get("fn", "")).endswith("Poly<float>::findRoots") or str(e.get("fn", "")).endswith("Poly<double>::findRoots") or
-                  (str(e.get("fn", "")).split("::")[-1] == "findRoots" and "Poly" in str(e.get("fn", "")))]
+        solver = [(b_, i, e) for b_, i, e in f.calls() if str(e.get("fn", "")).split("::")[-1] == "findRoots" and
+                  any(seg.startswith(("RPoly", "CPoly")) for seg in str(e.get("fn", "")).split("::"))]
+        # agreement between the loops of one driver: every loop that subscripts the coefficient array with its loop variable runs over the whole
+        # array (n+1 entries) -- a scan or copy that stops one short silently ignores the constant term
+        short = []
+        nloops = 0
+        for h, body in f.loops().items():
+            t = f.blocks[h].get("term", {})
+            c = t.get("cond")
+            cmps = sx_find(c, lambda y: y[0] == "op" and len(y) == 4 and y[1] in ("<", "<=") and isinstance(y[2], list) and y[2][:1] == ["var"])
+            for cm in cmps[:1]:
+                iv = cm[2][1]
+                reads = [q for b_ in body for q in f.blocks[b_]["ev"] if sx_find([q.get("x"), q.get("rhs"), q.get("init"), f.blocks[b_].get("term", {}).get("cond") if f.blocks[b_].get("term") else None],
+                                                                             lambda y: y[0] in ("opc", "idx") and var_of(y[2] if y[0] == "opc" else y[1]) == coefv and _strip(y[-1]) == ["var", iv])]
+                if not reads:
+                    continue
+                nloops += 1
+                bound = expand_locals(f, cm[3])
+                whole = (cm[1] == "<" and ((isinstance(bound, list) and bound[:2] == ["op", "+"] and _lit(bound[3], ("1",)) and bool(sx_find(bound[2], lambda y: y[0] == "call" and str(y[1]).endswith("::size") and var_of(y[2]) == rootsv))) or
+                                           bool(sx_find(bound, lambda y: y[0] == "call" and str(y[1]).endswith("::size") and var_of(y[2]) == coefv)))) or \
+                        (cm[1] == "<=" and bool(sx_find(bound, lambda y: y[0] == "call" and str(y[1]).endswith("::size") and var_of(y[2]) == rootsv)) and not (isinstance(bound, list) and bound[:2] == ["op", "+"]))
+                if not whole:
+                    short.append("line %s: %s" % (t.get("line"), sx_str(cm)))
+        if kind == "general":
+            chk.judge(nloops >= 1 and not short, "COPY", tag + ":every-loop-over-the-coefficients-covers-all-n+1", f.loc, "; ".join(short) if short else "%d loops" % nloops)
         if not chk.shape(len(solver) == 1, "COPY", tag + ":solver-call", f.loc, "%d" % len(solver)):
             continue
         sb, si, se = solver[0]
@@ -361,6 +384,9 @@ MUTATIONS = [
          old="    T discriminant = b2 - (T) 4.0*a*c;", new="    T discriminant = b - (T) 4.0*a*c;", expect="HOMOG:real"),
     dict(name="general driver copies only n coefficients", arm=True, file=_F,
          old="        for (int i = 0; i < n+1; ++i)\n            coeff[i] = coefficients[i];", new="        for (int i = 0; i < n; ++i)\n            coeff[i] = coefficients[i];", expect="COPY:general:real"),
+    dict(name="seeded (sub-agent): all-real scan of the complex driver stops before the constant term", file=_F,
+         old="    T *coeffr = new T[n+1];\n    T *coeffi = new T[n+1];", new="    bool allReal = true;\n    for (int i = 0; i < n && allReal; ++i)\n        allReal = (coefficients[i].imag() == 0);\n    if (allReal) {\n        Vector_<T> realCoeff(n+1);\n        for (int i = 0; i < n+1; ++i)\n            realCoeff[i] = coefficients[i].real();\n        findRoots(realCoeff, roots);\n        return;\n    }\n    T *coeffr = new T[n+1];\n    T *coeffi = new T[n+1];",
+         expect="COPY:general:complex<double>:every-loop-over-the-coefficients-covers-all-n+1"),
     dict(name="complex driver takes both parts from real()", file=_F,
          old="            coeffi[i] = coefficients[i].imag();", new="            coeffi[i] = coefficients[i].real();", expect="COPY:general:complex"),
     dict(name="cubic driver pairs the third root with the second imaginary part", file=_F,
